@@ -249,6 +249,10 @@ func (ex *Exec) call(fr *Frame, st *State, instr ssa.Value, com *ssa.CallCommon,
 	}
 	fn := fv.Fn.Fn
 	name := fn.String()
+	if isDenied(name) {
+		// wall clock / randomness / OS: must be unreachable in a function under contract
+		ex.addObl("frame", "denied-call-"+sanitizeLabel(name), ex.propsOf(), st, "false", ex.pos(in), "call of "+name+" must be unreachable (nondeterminism source)")
+	}
 	if m, ok := goModels[name]; ok {
 		if out, handled := m(ex, fr, st, com, args, in); handled {
 			ex.models[name] = true
